@@ -482,8 +482,8 @@ def run(R):
             if level != "v1":
                 run_case(R, level, "bulkget", db, {"scalars": [last], "repeaters": [(1, 3), last], "maxrep": 3}, "corner")
             stats = {(1, 3, 6, 1, 6, 3, 15, 1, 1, x, 0): ("c32", x) for x in range(1, 7)}
-            run_case(R, level, "multiget", dict(db, **stats), {"oids": sorted(stats)[:3]}, "corner-usmstats")
-            run_case(R, level, "getnext", dict(db, **stats), {"oids": [(1, 3, 6, 1, 6, 3, 15, 1, 1, 3)]}, "corner-usmstats")
+            run_case(R, level, "multiget", {**db, **stats}, {"oids": sorted(stats)[:3]}, "corner-usmstats")
+            run_case(R, level, "getnext", {**db, **stats}, {"oids": [(1, 3, 6, 1, 6, 3, 15, 1, 1, 3)]}, "corner-usmstats")
 
 
 def replay(R, v):
